@@ -702,7 +702,7 @@ def alphabet_for(ins):
         elif t[0] == "Bool":
             parts.append("[VB false; VB true]")
         elif t[0] == "Int":
-            parts.append(INT_ALPHA)
+            parts.append(INT_ALPHA if n == "a" else "[VI (-9)%Z; VI 0%Z; VI 5%Z; VI 300%Z]")
         else:
             parts.append("(vec_cands %s %d%%N)" % ({"BV": "KSlv", "U": "KUns", "S": "KSgn"}[t[0]], t[1]))
     return "product [" + "; ".join(parts) + "]"
@@ -1038,25 +1038,26 @@ def run(ck: common.Check, replay=None):
                 ck.obligation(False)
                 ck.violation(key_of(to_case(d, r)), "emitted VHDL left the parsed subset: " + str(e),
                              {"cell": cell_json(d["cells"][0]), "vhdl": r["vhdl"]}, no_input=True)
-        # breadth-first search first (cheap verdict); the theorem is only attempted where no difference exists
-        verdicts = pdiag(scases)
-        good = [c for c, (st, info) in zip(scases, verdicts) if st == "same"]
-        gouts = common.coqc_many([c.path for c in good], timeout=2400)
-        for c, (rc, out, err) in zip(good, gouts):
-            ck.obligation(rc == 0)
+        # the theorem first (most cells of a failed pack are fine); breadth-first search only where it fails: the search is
+        # quick when a difference exists and very slow (large alphabets) when none does
+        gouts = common.coqc_many([c.path for c in scases], timeout=2400)
+        failed = []
+        for c, (rc, out, err) in zip(scases, gouts):
             if rc == 0:
+                ck.obligation(True)
                 ck.nontrivial(c.name)
-                common._cleanup_v(c.path)
             else:
-                ck.violation(key_of(c), "case obligation not discharged although no difference was found", {"case_file": c.path,
-                             "log": (out + err)[-800:]}, no_input=True)
-        for c, (st, info) in zip(scases, verdicts):
-            if st == "same":
-                continue
+                failed.append(c)
+        verdicts = pdiag(failed)
+        for c, (st, info) in zip(failed, verdicts):
             ck.obligation(False)
             rep = {"cell": c.meta["cells"][0], "stage": "value", "source": c.meta["source"], "vhdl": c.vhdl, "status": st}
             rep.update(info)
-            report(key_of(c), what, rep, no_input=(st != "cex"))
+            report(key_of(c), what if st != "same" else "case obligation not discharged although no difference was found",
+                   rep, no_input=(st != "cex"))
+        for c in scases:
+            if c not in failed:
+                common._cleanup_v(c.path)
     ck.cov["value_items_rechecked_alone"] = len(singles)
 
     mark("value_theorems")
